@@ -3,6 +3,7 @@ package main
 
 import (
 	"fmt"
+	"math"
 	"math/rand"
 	"runtime"
 	"sync"
@@ -107,6 +108,123 @@ func checkAll(keys []int) {
 		}
 	}
 }
+
+// typedFamily runs the ordered-type entry points (Sort, SortDesc, BinarySearch) and the Func variants
+// over ONE element type whose value universe `uni` (ascending, pairwise distinct under <) contains the
+// extremes of the type: a fast path specialised on an element type or on a value range shows here and
+// nowhere else. Oracle: the result, mapped to universe ranks, is monotone and has the input's histogram.
+func typedFamily[T interface {
+	~int | ~int8 | ~int16 | ~int32 | ~int64 | ~uint | ~uint8 | ~uint16 | ~uint32 | ~uint64 | ~uintptr | ~float32 | ~float64 | ~string
+}](tname string, uni []T, lens []int) int {
+	rank := func(v T) int {
+		for i, u := range uni {
+			if u == v {
+				return i
+			}
+		}
+		return -1
+	}
+	pats := []func(i, n int) int{
+		func(i, n int) int { return i },
+		func(i, n int) int { return n - 1 - i },
+		func(i, n int) int { return (i * 7) % 5 },
+		func(i, n int) int { return (i*2654435761 + 12345) % 1000003 },
+		func(i, n int) int { return i / 3 },
+		func(i, n int) int {
+			if i == n/2 {
+				return len(uni) - 1 // one maximal value among minimal ones
+			}
+			return 0
+		},
+	}
+	cases := 0
+	for _, n := range lens {
+		for pi, pat := range pats {
+			in := make([]T, n)
+			hist := make([]int, len(uni))
+			for i := range in {
+				k := pat(i, n) % len(uni)
+				in[i] = uni[k]
+				hist[k]++
+			}
+			cases++
+			e.Input(n >= 2)
+			rp := map[string]any{"type": tname, "len": n, "pattern": pi, "universe": fmt.Sprint(uni)}
+			verify := func(name string, out []T, desc bool) bool {
+				e.Call()
+				h := make([]int, len(uni))
+				ok := len(out) == n
+				prev := -1
+				for i, v := range out {
+					k := rank(v)
+					if k < 0 {
+						ok = false
+						break
+					}
+					h[k]++
+					if i > 0 && ((!desc && k < prev) || (desc && k > prev)) {
+						ok = false
+					}
+					prev = k
+				}
+				if !ok || fmt.Sprint(h) != fmt.Sprint(hist) {
+					show := out
+					if len(show) > 24 {
+						show = show[:24]
+					}
+					e.Fail(name+"|result", rp, "%s on []%s of length %d (pattern %d over %v): result %v... has histogram %v, input %v, or is not ordered", name, tname, n, pi, uni, show, h, hist)
+					return false
+				}
+				return true
+			}
+			cp := func() []T { return append([]T{}, in...) }
+			a := cp()
+			slices.Sort(a)
+			sortedOK := verify("Sort", a, false)
+			d := cp()
+			slices.SortDesc(d)
+			verify("SortDesc", d, true)
+			lt := func(x, y T) bool { return x < y }
+			for _, f := range []struct {
+				name string
+				f    func([]T, func(x, y T) bool)
+				desc bool
+			}{
+				{"SortFunc", func(s []T, l func(x, y T) bool) { slices.SortFunc(s, l) }, false},
+				{"SortDescFunc", func(s []T, l func(x, y T) bool) { slices.SortDescFunc(s, l) }, true},
+				{"SortStableFunc", func(s []T, l func(x, y T) bool) { slices.SortStableFunc(s, l) }, false},
+				{"SortStableDescFunc", func(s []T, l func(x, y T) bool) { slices.SortStableDescFunc(s, l) }, true},
+			} {
+				c := cp()
+				f.f(c, lt)
+				verify(f.name, c, f.desc)
+			}
+			if sortedOK {
+				for _, t := range uni {
+					want := n
+					for i, v := range a {
+						if !(v < t) {
+							want = i
+							break
+						}
+					}
+					e.Call()
+					if got := slices.BinarySearch(a, t); got != want {
+						e.Fail("BinarySearch|result", rp, "BinarySearch on sorted []%s of length %d, target %v = %d, want %d", tname, n, t, got, want)
+					}
+					e.Call()
+					if got := slices.BinarySearchFunc(a, func(x T) bool { return x < t }); got != want {
+						e.Fail("BinarySearchFunc|result", rp, "BinarySearchFunc on sorted []%s of length %d, target %v = %d, want %d", tname, n, t, got, want)
+					}
+				}
+			}
+		}
+	}
+	return cases
+}
+
+type myInt int
+type myStr string
 
 func main() {
 	ev.GuardFor("C15")
@@ -231,6 +349,35 @@ func main() {
 	close(famJobs)
 	fwg.Wait()
 	r.Set("large_size_family_inputs", famCases)
+	// element types: every ordered kind with the extremes of its range in the universe
+	{
+		tl := []int{0, 1, 2, 3, 5, 8, 12, 13, 31, 32, 33, 63, 64, 65, 100, 127, 128, 129, 255, 256, 257, 300, 1000}
+		if r.Thorough() {
+			tl = nil
+			for n := 0; n <= 300; n++ {
+				tl = append(tl, n)
+			}
+			tl = append(tl, 511, 512, 513, 1000, 1024, 1025, 4096, 4097, 70000)
+		}
+		tc := 0
+		tc += typedFamily("uint8", []uint8{0, 1, 2, 127, 128, 254, 255}, tl)
+		tc += typedFamily("int8", []int8{-128, -127, -1, 0, 1, 126, 127}, tl)
+		tc += typedFamily("uint16", []uint16{0, 1, 255, 256, 32767, 32768, 65534, 65535}, tl)
+		tc += typedFamily("int16", []int16{-32768, -1, 0, 1, 32767}, tl)
+		tc += typedFamily("int32", []int32{math.MinInt32, -1, 0, 1, math.MaxInt32}, tl)
+		tc += typedFamily("uint32", []uint32{0, 1, math.MaxInt32, math.MaxInt32 + 1, math.MaxUint32}, tl)
+		tc += typedFamily("int64", []int64{math.MinInt64, math.MinInt64 + 1, -1, 0, 1, math.MaxInt64 - 1, math.MaxInt64}, tl)
+		tc += typedFamily("uint64", []uint64{0, 1, math.MaxInt64, math.MaxInt64 + 1, math.MaxUint64 - 1, math.MaxUint64}, tl)
+		tc += typedFamily("int", []int{math.MinInt, -1, 0, 1, math.MaxInt}, tl)
+		tc += typedFamily("uint", []uint{0, 1, math.MaxUint}, tl)
+		tc += typedFamily("uintptr", []uintptr{0, 1, math.MaxUint}, tl)
+		tc += typedFamily("float64", []float64{math.Inf(-1), -math.MaxFloat64, -1, -math.SmallestNonzeroFloat64, 0, math.SmallestNonzeroFloat64, 1, math.MaxFloat64, math.Inf(1)}, tl)
+		tc += typedFamily("float32", []float32{float32(math.Inf(-1)), -math.MaxFloat32, -1, 0, math.SmallestNonzeroFloat32, 1, math.MaxFloat32, float32(math.Inf(1))}, tl)
+		tc += typedFamily("string", []string{"", "\x00", "A", "a", "a\x00", "aa", "b", "\xff", "\xff\xff"}, tl)
+		tc += typedFamily("named int", []myInt{-5, 0, 5, math.MaxInt}, tl)
+		tc += typedFamily("named string", []myStr{"", "x", "y"}, tl)
+		r.Set("element_type_family_inputs", tc)
+	}
 	r.Sample("keys [2 0 1 0] -> six sort functions, tagged with original index")
 	// BinarySearch: every ascending slice over {0,2,4} of length <= L x every target -1..5
 	L := ev.Pick(r, 8, 12)
@@ -345,5 +492,5 @@ func main() {
 			}
 		}
 	}
-	e.Finish(fmt.Sprintf("every key sequence over {0,1,2} of length <= %d and over {0,1} of length %d..%d, elements tagged with their original index, through all six sort functions (permutation, ordered, stable); every ascending slice over {0,2,4} of length <= %d x every target -1..5 for both binary searches; ShuffleRand for every length x 64 seeds; non-trivial = input not already ascending", ternLen, ternLen+1, binLen, L))
+	e.Finish(fmt.Sprintf("every key sequence over {0,1,2} of length <= %d and over {0,1} of length %d..%d, elements tagged with their original index, through all six sort functions (permutation, ordered, stable); every ascending slice over {0,2,4} of length <= %d x every target -1..5 for both binary searches; 16 ordered element types (every integer width, floats, strings, named types) with the extremes of each range in the universe, at lengths up to 1000 (thorough: every length to 300, then to 70000), through all sort and search functions; ShuffleRand for every length x 64 seeds; non-trivial = input not already ascending", ternLen, ternLen+1, binLen, L))
 }
